@@ -20,6 +20,8 @@ package flood
 
 import (
 	"fmt"
+	"sync"
+	"sync/atomic"
 	"testing"
 	"time"
 
@@ -36,6 +38,9 @@ func TestVerif_C29_Flood(t *testing.T) {
 	r.Assume("an adversary cannot produce a valid Ed25519 signature; replays are byte-identical in their signed part")
 	n := r.N(1200, 10000)
 	r.Cases("hist", n, func(ci int, rng *verifkit.Rand) { c29FloodCase(r, "hist", ci, rng) })
+	c29Concurrent(r)
+	r.Require("conc_rounds_overlapping", 200)
+	r.Require("conc_accepts", 500)
 	r.Require("first_accepts", 1000)
 	r.Require("replays_judged", 2000)
 	r.Require("replays_after_cleanup", 500)
@@ -259,4 +264,110 @@ func c29FloodCase(r *verifkit.R, phase string, ci int, rng *verifkit.Rand) {
 	if interesting && r.NeedSample() {
 		r.Sample(map[string]any{"window": window.String(), "ttl": ttl.String(), "cache_limit": cfg.MaxSeenCacheSize, "genuine": ng, "steps": steps})
 	}
+}
+
+// c29Concurrent: every peer connection has its own dispatch goroutine, so the copies of a
+// flooded command that arrive from several neighbours are handled concurrently. Per round
+// one fresh validly signed command is delivered by N goroutines (released together, each
+// with its own fromPeer, some presenting the other frame type); at most one call may return
+// true and no peer may be sent the command more than once. The number of rounds in which
+// calls really overlapped is measured with an in-flight counter and reported.
+func c29Concurrent(r *verifkit.R) {
+	cases := r.N(40, 400)
+	r.Cases("conc", cases, func(ci int, rng *verifkit.Rand) {
+		window := 5 * time.Minute
+		g := c28NewGen(rng, window)
+		local := c28ID(rng)
+		s := &c28Sender{}
+		npeers := rng.Range(4, 12)
+		for i := 0; i < npeers; i++ {
+			s.peers = append(s.peers, c28ID(rng))
+		}
+		cfg := DefaultFloodConfig()
+		cfg.TimestampWindow = window
+		pub := g.good.PublicKey
+		cfg.SigningPublicKey = &pub
+		f := NewFlooder(cfg, local, nil, s)
+		defer f.Stop()
+		rounds := 100
+		overl, multi := 0, 0
+		for rd := 0; rd < rounds; rd++ {
+			x := g.genuineAt(rd%2 == 1, time.Duration(rng.Range(-1, 1))*window/2)
+			n := rng.Range(4, npeers)
+			mixed := rng.Chance(1, 4)
+			cmds := make([]*c28Cmd, n)
+			for i := range cmds {
+				c := *x
+				if mixed && rng.Bool() {
+					c.Wake = !c.Wake
+				}
+				cmds[i] = &c
+			}
+			m := s.mark()
+			var inflight, maxIn, accepts int32
+			start := make(chan struct{})
+			var wg sync.WaitGroup
+			for i := 0; i < n; i++ {
+				wg.Add(1)
+				go func(i int) {
+					defer wg.Done()
+					<-start
+					cur := atomic.AddInt32(&inflight, 1)
+					for {
+						old := atomic.LoadInt32(&maxIn)
+						if cur <= old || atomic.CompareAndSwapInt32(&maxIn, old, cur) {
+							break
+						}
+					}
+					var acc bool
+					if cmds[i].Wake {
+						acc = f.HandleWakeCommand(s.peers[i], cmds[i].wakeCmd())
+					} else {
+						acc = f.HandleSleepCommand(s.peers[i], cmds[i].sleepCmd())
+					}
+					atomic.AddInt32(&inflight, -1)
+					if acc {
+						atomic.AddInt32(&accepts, 1)
+					}
+				}(i)
+			}
+			close(start)
+			wg.Wait()
+			sent := s.since(m)
+			tuples, _ := c28SentTuples(sent)
+			perDest := map[string]int{}
+			worst := 0
+			for i, fr := range sent {
+				if tuples[i] == x.tuple() {
+					k := fmt.Sprintf("%x", fr.To[:])
+					perDest[k]++
+					if perDest[k] > worst {
+						worst = perDest[k]
+					}
+				}
+			}
+			if maxIn >= 2 {
+				overl++
+			}
+			r.Add("conc_rounds", 1)
+			r.Add("conc_accepts", int(accepts))
+			r.Add("conc_frames_sent", len(sent))
+			if accepts == 0 {
+				r.Add("conc_rounds_without_accept", 1)
+			}
+			wit := map[string]any{"round": rd, "goroutines": n, "max_in_flight": maxIn, "accepted_calls": accepts,
+				"frames_sent": len(sent), "max_copies_to_one_peer": worst, "mixed_frame_types": mixed, "cmd": x.witness()}
+			if accepts > 1 {
+				multi++
+				r.Violation("concurrent:accepted-more-than-once", "conc", ci,
+					fmt.Sprintf("%d of %d concurrent deliveries of the same signed command returned true", accepts, n), wit)
+			}
+			if worst > 1 {
+				r.Violation("concurrent:forwarded-more-than-once-to-a-peer", "conc", ci,
+					fmt.Sprintf("a peer was sent the same signed command %d times during concurrent delivery", worst), wit)
+			}
+		}
+		r.Add("conc_rounds_overlapping", overl)
+		r.Eval(fmt.Sprintf("conc-%d-%d-%d-%d", ci, npeers, overl, multi), overl > 0)
+	})
 }
